@@ -18,6 +18,8 @@ fn family(name: &str) -> Option<fn(&str) -> String> {
         "pvcheck" => fam_ref::pvcheck,
         "pgn" => fam_pgn::run,
         "lichess" => fam_lichess::run,
+        "uciparse" => fam_uci::uciparse,
+        "ucimove" => fam_uci::ucimove,
         _ => return None,
     })
 }
